@@ -104,9 +104,11 @@ MNormalize(M) ==
 
 MAdd(A, B) ==
     IF A.d = B.d
-    THEN MkMatD(A.r, A.c, A.d, LAMBDA i, j: CAdd(A.e[i][j], B.e[i][j]))
-    ELSE MkMatD(A.r, A.c, A.d * B.d,
-                LAMBDA i, j: CAdd(CScaleI(B.d, A.e[i][j]), CScaleI(A.d, B.e[i][j])))
+    THEN IF A.d = 1 THEN MkMatD(A.r, A.c, 1, LAMBDA i, j: CAdd(A.e[i][j], B.e[i][j]))
+         ELSE MNormalize(MkMatD(A.r, A.c, A.d, LAMBDA i, j: CAdd(A.e[i][j], B.e[i][j])))
+    ELSE LET g == Gcd(A.d, B.d)     \* least common denominator, then cancel
+         IN MNormalize(MkMatD(A.r, A.c, (A.d \div g) * B.d,
+                              LAMBDA i, j: CAdd(CScaleI(B.d \div g, A.e[i][j]), CScaleI(A.d \div g, B.e[i][j]))))
 MNeg(A) == MkMatD(A.r, A.c, A.d, LAMBDA i, j: CNeg(A.e[i][j]))
 MSub(A, B) == MAdd(A, MNeg(B))
 MScale(s, A) ==
